@@ -238,6 +238,11 @@ pub fn run(r: &Req) -> Option<String> {
                     let v: Vec<Option<Option<i64>>> = xs.iter().map(|x| x.map(|y| Some(y as i64))).collect();
                     by_cont!(oc, Option<i64>, O => collect_opt_of::<Option<i64>, O>(v))
                 },
+                // element type without a null encoding: defined for sources that hold no None
+                ("opt", "i64") => {
+                    let v: Vec<Option<i64>> = xs.iter().map(|x| x.map(|y| y as i64)).collect();
+                    by_cont!(oc, i64, O => collect_opt_of::<i64, O>(v))
+                },
                 ("opt", _) => by_cont!(oc, f64, O => collect_opt_of::<f64, O>(xs)),
                 (m, _) => by_cont!(oc, Option<f64>, O => collect_of::<O>(m, xs)),
             }
@@ -364,6 +369,11 @@ pub fn generate(tier: &str, rng: &mut Rng) -> (Vec<String>, bool) {
                 let xs = if v.is_empty() { "[]".to_string() } else { v.join(",") };
                 out.push(format!("collect m=opt t=f64 oc={} xs={}", oc, xs));
                 out.push(format!("collect m=opt t=oi64 oc={} xs={}", oc, xs));
+                if mask == 0 {
+                    // all-Some source into an integer container (no null needed, none may be asked for)
+                    let vi: Vec<String> = (0..n).map(|i| format!("{}", 4 * (i as i64) - 8)).collect();
+                    out.push(format!("collect m=opt t=i64 oc={} xs={}", oc, if vi.is_empty() { "[]".to_string() } else { vi.join(",") }));
+                }
             }
             // fallible sources: an error at every subset of positions (so also at every position)
             for mask in 0..(1u32 << n) {
@@ -464,5 +474,5 @@ pub fn generate(tier: &str, rng: &mut Rng) -> (Vec<String>, bool) {
 
 pub fn rule(tier: &str) -> String {
     let (r, n) = if tier == "thorough" { (8, 10) } else { (6, 8) };
-    format!("exhaustive: range(a, b, step) for a, b, step in -{r}..={r} (step != 0) as i32 / i64 / usize (non-negative part) and as f64 with values k/4, and linspace(a, b, n) for the same a, b and n in 0..={n}, each through Vec1Create into Vec / VecDeque / Array1; full(len 0..={n}) and empty for the three containers; collect_vec1 / collect_trusted_vec1 / collect_vec1_with_len on sources of length 0..=6 (with and without a null), collect_vec1_opt on every null pattern of length 0..=6 (f64 -> NaN and Option<i64> -> None), try_collect_vec1 / try_collect_trusted_vec1 on every Ok/Err pattern of length 0..=6 (so an error at every position, several errors, none) observing the returned value or error and the number of items pulled; write_trust_iter on buffers of length 0..=6 (a logging UninitRefMut and the real uninitialised Vec / VecDeque / Array1 buffers) against iterators of every length 0..=8 (vec::IntoIter and TrustIter). Then a seeded random stream with |a|,|b| <= 400 (or /4), |step| <= 40, n < 60, sources up to 40 items. Trusted collectors are only ever given iterators whose hint is their true length. non-trivial = a non-empty result.")
+    format!("exhaustive: range(a, b, step) for a, b, step in -{r}..={r} (step != 0) as i32 / i64 / usize (non-negative part) and as f64 with values k/4, and linspace(a, b, n) for the same a, b and n in 0..={n}, each through Vec1Create into Vec / VecDeque / Array1; full(len 0..={n}) and empty for the three containers; collect_vec1 / collect_trusted_vec1 / collect_vec1_with_len on sources of length 0..=6 (with and without a null), collect_vec1_opt on every null pattern of length 0..=6 (f64 -> NaN and Option<i64> -> None; all-Some sources also into plain i64), try_collect_vec1 / try_collect_trusted_vec1 on every Ok/Err pattern of length 0..=6 (so an error at every position, several errors, none) observing the returned value or error and the number of items pulled; write_trust_iter on buffers of length 0..=6 (a logging UninitRefMut and the real uninitialised Vec / VecDeque / Array1 buffers) against iterators of every length 0..=8 (vec::IntoIter and TrustIter). Then a seeded random stream with |a|,|b| <= 400 (or /4), |step| <= 40, n < 60, sources up to 40 items. Trusted collectors are only ever given iterators whose hint is their true length. non-trivial = a non-empty result.")
 }
